@@ -92,6 +92,9 @@ def mk_asset(a, pool, tz=None):
     for k in COMMON:
         if a.get(k) is not None:
             kw[k] = ts(a[k])
+            if a.get('window_tz') and tz is not None and kw[k].tzinfo is None:
+                # the same instant, stamped in another zone (UTC, fixed offset) than the grid's
+                kw[k] = kw[k].tz_localize(tz).tz_convert(a['window_tz'])
     for k in PLAIN:
         if k in a:
             kw[k] = a[k]
